@@ -4,8 +4,15 @@ import ShredModel.Drv.Util
 Line-protocol front end of the `MetaTable` model (engine `meta`, property C17).
 
 ```
-meta new <bad>        fresh table, empty world; <bad> = comma list of types whose `CastFrom`
-                      moves the address (or `-`)                                  -> ok
+meta new <casts>      fresh table, empty world, not armed; <casts> = comma list (or `-`) of the
+                      types whose `CastFrom` is not the lawful one, each `<ty>:<k>:<vt>`:
+                        k = m  the address is moved, the vtable attached is <vt>'s
+                        k = s  the address is kept, the vtable attached is <vt>'s
+                        k = w  lawful while not armed; while armed: address moved, vtable <vt>
+                      (`<ty>` alone = `<ty>:m:<ty>`)                               -> ok
+meta arm <0|1>        the switch the `w` casts look at (user-side state)           -> ok
+meta trait <0|1>      the table is a `MetaTable<dyn Obj>` (0) / `MetaTable<dyn Sub>`, `Sub: Obj + Send + Sync`
+                      (1); the code is generic in the trait object, the model does not distinguish -> ok
 meta reg <ty>         table.register::<ty>()                                       -> ok
 meta ins <ty>         world.insert(value of ty)   (no guard may be alive)          -> ok
 meta rem <ty>         world.remove::<ty>()        (no guard may be alive)          -> some | none
@@ -18,6 +25,7 @@ meta getmut <ty>      table.get_mut(&mut *world.try_fetch_mut::<ty>()?)   (same 
 meta getloc <ty>      table.get(&value of ty that lives outside the world) -> none | some .. | panic badcast
 meta iter | itermut   table.iter(&world) / table.iter_mut(&world), iterator kept   -> ok
 meta next <k>         next() on the (k mod n)-th live iterator, item kept as a guard
+                      (<same|moved>: relative to the resource whose cell the item borrows)
                       -> item <vtable> <same|moved> | none | panic borrowed | panic badcast | panic index | noop
 meta collect <k>      next() until None or a panic, items kept
                       -> items <vtable,..|-> end | items <..> panic <kind> | noop
@@ -29,8 +37,16 @@ meta probe            borrow flag of every present cell, by type: <ty>:<f|s|x> .
 namespace Shred.Drv.Meta
 open Shred Shred.Meta Shred.Drv
 
+/-- how the `CastFrom` implementation of one type misbehaves -/
+inductive CastKind
+  | moved      -- another address
+  | same       -- the address it was given (but maybe another vtable)
+  | switch     -- lawful unless armed, then another address
+deriving Repr, DecidableEq
+
 structure St where
-  bad : List Nat := []
+  casts : List (Nat × CastKind × Nat) := []
+  armed : Bool := false
   table : MetaTable := {}
   world : MWorld := MWorld.empty
   /-- types that were ever inserted (to enumerate the cells for `probe`) -/
@@ -42,8 +58,29 @@ structure St where
   /-- live iterators in creation order -/
   iters : List MIter := []
 
-/-- the `CastFrom` implementations of the harness: the listed types move the pointer -/
-def castOf (bad : List Nat) : CastFn := fun ty a => if bad.contains ty then a + 8 else a
+/-- the `CastFrom` implementations of the harness: lawful for every type not listed -/
+def castOf (casts : List (Nat × CastKind × Nat)) (armed : Bool) : CastFn := fun ty a =>
+  match casts.find? (fun e => e.1 == ty) with
+  | none => lawfulCast ty a
+  | some (_, .moved, vt) => ⟨a + 8, vt⟩
+  | some (_, .same, vt) => ⟨a, vt⟩
+  | some (_, .switch, vt) => if armed then ⟨a + 8, vt⟩ else lawfulCast ty a
+
+def parseCast (e : String) : Option (Nat × CastKind × Nat) :=
+  match e.splitOn ":" with
+  | [ty] => ty.toNat?.map fun t => (t, .moved, t)
+  | [ty, k, vt] =>
+    match ty.toNat?, vt.toNat? with
+    | some t, some v =>
+      if k == "m" then some (t, .moved, v) else if k == "s" then some (t, .same, v)
+      else if k == "w" then some (t, .switch, v) else none
+    | _, _ => none
+  | _ => none
+
+/-- the types of `tys[i..j)` that are present: the cells an iterator that moved from `i` to `j`
+looked at and found -/
+def foundBetween (t : MetaTable) (w : MWorld) (i j : Nat) : List Nat :=
+  ((t.tys.drop i).take (j - i)).filter w.present
 
 def showPanic : MPanic → String
   | .badCast => "panic badcast"
@@ -70,7 +107,15 @@ def sortNat (l : List Nat) : List Nat :=
 
 def step (st : St) (ws : List String) : St × String :=
   match ws with
-  | ["new", bad] => ({ bad := (parseList bad).filterMap String.toNat? }, "ok")
+  | ["new", casts] =>
+    let es := (parseList casts).map parseCast
+    if es.all Option.isSome then ({ casts := es.filterMap id }, "ok") else (st, "bad-op")
+  | ["trait", k] =>
+    -- which trait object the table is for: the model has one table, the behaviour is the same
+    if k == "0" || k == "1" then (st, "ok") else (st, "bad-op")
+  | ["arm", b] =>
+    if b == "1" then ({ st with armed := true }, "ok")
+    else if b == "0" then ({ st with armed := false }, "ok") else (st, "bad-op")
   | ["reg", ty] =>
     match ty.toNat? with
     | some ty =>
@@ -96,7 +141,7 @@ def step (st : St) (ws : List String) : St × String :=
     match ty.toNat? with
     | none => (st, "bad-op")
     | some n =>
-      let cast := castOf st.bad
+      let cast := castOf st.casts st.armed
       if op == "fetch" || op == "fetchmut" then
         match st.world.acquire n (op == "fetchmut") with
         | (_, .none) => (st, "none")
@@ -133,7 +178,11 @@ def step (st : St) (ws : List String) : St × String :=
           match o with
           | .none => (st', "none")
           | .panic e => (st', showPanic e)
-          | .item p => ({ st' with guards := st'.guards ++ [p.vtable] }, s!"item {p.vtable} {same p (addrOf st.world p.vtable)}")
+          | .item p =>
+            -- the cell that got borrowed is the one of the type just before the new position
+            match st.table.tys[it'.index - 1]? with
+            | some ty => ({ st' with guards := st'.guards ++ [ty] }, s!"item {p.vtable} {same p (addrOf st.world ty)}")
+            | none => (st, "bad-op")
       else if op == "collect" then
         if st.iters.isEmpty then (st, "noop") else
         let k := n % st.iters.length
@@ -142,10 +191,15 @@ def step (st : St) (ws : List String) : St × String :=
         | some it =>
           let r := st.table.collect cast st.world it
           let tags := r.items.map (·.vtable)
-          let moved := r.items.any fun p => p.addr != addrOf st.world p.vtable
+          -- the cells the items borrow: the present types the iterator passed, except the one
+          -- it panicked at
+          let found := foundBetween st.table st.world it.index r.index
+          let cells := if r.panic.isSome then found.dropLast else found
+          if cells.length != r.items.length then (st, "bad-op") else
+          let moved := (r.items.zip cells).any fun (p, ty) => p.addr != addrOf st.world ty
           let txt := (if tags.isEmpty then "-" else ",".intercalate (tags.map toString)) ++ (if moved then " moved" else "")
           ({ st with world := r.world, iters := st.iters.set k { it with index := r.index },
-                     guards := st.guards ++ tags },
+                     guards := st.guards ++ cells },
            match r.panic with
            | none => s!"items {txt} end"
            | some e => s!"items {txt} {showPanic e}")
